@@ -10,3 +10,9 @@ if [ -f replay/Cargo.toml ]; then
   (cd replay && CARGO_NET_OFFLINE=true CARGO_TARGET_DIR=../.work/replay-target cargo build -q --offline) || true
 fi
 echo setup done
+# warm the Kani build (harness crate + the crate under /repo) so that the first check does not pay for it
+if [ -f kani/Cargo.toml ]; then
+  cp /repo/Cargo.lock kani/Cargo.lock 2>/dev/null || true
+  (cd kani && CARGO_NET_OFFLINE=true CARGO_TARGET_DIR=../.work/kani-target timeout 600 cargo kani --harness shims::shim_offset_ord --exact >/dev/null 2>&1) || true
+fi
+echo setup complete
